@@ -248,9 +248,12 @@ def oracle(case, lines, cap, kmax):
             pieces += [(b" - ", "separator"), (path.rsplit(b"/", 1)[-1], "base name of the source file"), (b":", "colon"),
                        (kv["line"].encode(), "line number"), (b"\n", "newline")]
             if m.group(3) == "long":
-                total = b"".join(p if p is not None else b"nan" for p, _ in pieces)
-                if len(total) + kmax <= cap and (int(m.group(1)) != len(total) or (None not in [p for p, _ in pieces] and m.group(2) != crc(total))):
-                    raise Fail(i, "long line differs from the expected %d bytes" % len(total))
+                import itertools
+                nn = sum(1 for p, _ in pieces if p is None)
+                variants = [b"".join((next(it) if p is None else p) for p, _ in pieces)
+                            for combo in itertools.product([b"nan", b"-nan"], repeat=min(nn, 6)) for it in [iter(combo + (b"nan",) * nn)]]
+                if all(len(v) + kmax <= cap for v in variants) and not any(int(m.group(1)) == len(v) and m.group(2) == crc(v) for v in variants):
+                    raise Fail(i, "long line (%s bytes) differs from the expected %d bytes" % (m.group(1), len(variants[0])))
                 if int(m.group(1)) > cap:
                     raise Fail(i, "line of %s bytes exceeds the buffer" % m.group(1))
             else:
@@ -659,7 +662,16 @@ def run(chk, replay=None):
     tier, rng = chk.tier, chk.rng
     pr = chk.prove()
     model = vlib.build_model("C17")
-    impl = vlib.build_driver("C17_driver", ["C17_driver.cc"], variant="asan", components=("base",), wrap=["gettimeofday", "syscall"])
+    try:
+        impl = vlib.build_driver("C17_driver", ["C17_driver.cc"], variant="asan", components=("base",), wrap=["gettimeofday", "syscall"])
+    except RuntimeError as e:
+        # e.g. LogStream::staticCheck's static_assert on kMaxNumericSize: nothing can be run
+        p = chk.write_replay("build_failure.txt", "# the sources under %s do not build with the harness; proof status: ok=%s broken=%s problems=%s\n%s\n"
+                             % (vlib.REPO, pr["ok"], pr["broken"], pr["problems"], str(e)[:6000]))
+        chk.add_obligation("harness build", False)
+        chk.violation(p, "the implementation does not build (%s); broken proof obligations: %s"
+                      % (str(e).split("\n")[2][:200] if len(str(e).split("\n")) > 2 else str(e)[:200], pr["broken"]), no_input=True)
+        return chk.finish(level="proof", assumptions=["run stopped: implementation did not build"])
     consts = open(os.path.join(vlib.COQ, "Gen_Consts.v")).read()
 
     def cget(n, d):
@@ -807,8 +819,15 @@ def run(chk, replay=None):
                 except Fail:
                     return True
             small = shrink(c, pred)
+            mb = re.search(r"^(IR|PRX) (\S+).*: value (-?\d+) is not printed", msg)
+            if mb:
+                one = vlib.Case(c.cid, "", ["I %s %s" % (mb.group(2), mb.group(3))] if mb.group(1) == "IR" else ["P " + mb.group(3)])
+                io, cr = run_one(impl, one, False)
+                if cr is not None or pred(one, io, None):
+                    small = one
             p = chk.write_replay("oracle_%s.case" % c.cid, "# %s\n" % msg.replace("\n", "\n# ") + (("# proposed key: %s\n" % key) if key else "") + small.text())
-            chk.violation(p, "C17 fails on the implementation: %s (%d failing cases in total)" % (msg, len(oracle_bad)))
+            chk.violation(p, "C17 fails on the implementation: %s (%d failing cases in total)%s" % (
+                msg, len(oracle_bad), "" if pr["ok"] else "; proof obligation(s) no longer check: %s %s" % (pr["broken"], pr["problems"])))
     elif corr_bad or not pr["ok"]:
         what = []
         if not pr["ok"]:
